@@ -151,6 +151,7 @@ Holds(e, name) ==
     [] name = "C04_SameAsMatrixPDE" ->
          C04_SameInterior(g, FieldOf(g, o.r_solve), IntFieldOf(g, o.r_matrix))
     [] name = "C04_ExternalSolver" ->
+         /\ o.flags.external_called
          /\ MatOf(o.Mext) = MatOf(o.Mhand)
          /\ FieldOf(g, o.Rext) = FieldOf(g, o.Rhand)
          /\ C04_SameInterior(g, IntFieldOf(g, o.r_ext), FieldOf(g, cf.xstar2))
